@@ -20,9 +20,10 @@ VARIABLES mods,         \* configured modules
           phase,        \* [mods -> "absent","created","early","inited","started"]
           written, polled, cbdone,     \* subsets of mods
           state,        \* "starting" | "ready" | "refused" | "stopping" | "down"
-          stopped, joined, shut        \* subsets of mods
+          stopped, joined, shut,       \* subsets of mods
+          inflight                     \* modules whose (long) poll is running right now
 cfgvars == <<mods, att, wrong, fail, polls, writes, host>>
-vars == <<mods, att, wrong, fail, polls, writes, host, phase, written, polled, cbdone, state, stopped, joined, shut>>
+vars == <<mods, att, wrong, fail, polls, writes, host, phase, written, polled, cbdone, state, stopped, joined, shut, inflight>>
 
 FailKinds == {"none", "early", "init", "create", "createcfg", "nosuper_early", "nosuper_init"}
 Rank(p) == CASE p = "absent" -> 0 [] p = "created" -> 1 [] p = "early" -> 2 [] p = "inited" -> 3 [] p = "started" -> 4
@@ -43,61 +44,68 @@ CfgInit == /\ mods \in (SUBSET Names) \ {{}}
            /\ host \in [mods -> mods] /\ (\A m \in mods : host[m] = m \/ host[m] \in att[m])
 RunInit == /\ phase = [m \in mods |-> "absent"]
            /\ written = {} /\ polled = {} /\ cbdone = {} /\ state = "starting"
-           /\ stopped = {} /\ joined = {} /\ shut = {}
+           /\ stopped = {} /\ joined = {} /\ shut = {} /\ inflight = {}
 Init == CfgInit /\ RunInit
 
 Step(m, from, to) == /\ state = "starting" /\ phase[m] = from /\ phase' = [phase EXCEPT ![m] = to]
 
-Create(m) == fail[m] \notin {"create", "createcfg"} /\ Step(m, "absent", "created") /\ UNCHANGED <<cfgvars, written, polled, cbdone, state, stopped, joined, shut>>
-EarlyInit(m) == Step(m, "created", "early") /\ UNCHANGED <<cfgvars, written, polled, cbdone, state, stopped, joined, shut>>
+Create(m) == fail[m] \notin {"create", "createcfg"} /\ Step(m, "absent", "created") /\ UNCHANGED <<cfgvars, written, polled, cbdone, state, stopped, joined, shut, inflight>>
+EarlyInit(m) == Step(m, "created", "early") /\ UNCHANGED <<cfgvars, written, polled, cbdone, state, stopped, joined, shut, inflight>>
 (* initModule returns only when it is done; a user may see an attachment only once that one is inited *)
 InitModule(m) == /\ Step(m, "early", "inited")
-                 /\ UNCHANGED <<cfgvars, written, polled, cbdone, state, stopped, joined, shut>>
+                 /\ UNCHANGED <<cfgvars, written, polled, cbdone, state, stopped, joined, shut, inflight>>
 StartModule(m) == /\ Step(m, "inited", "started")
-                  /\ UNCHANGED <<cfgvars, written, polled, cbdone, state, stopped, joined, shut>>
+                  /\ UNCHANGED <<cfgvars, written, polled, cbdone, state, stopped, joined, shut, inflight>>
 (* a user looks at its attachment t: allowed only if t is fully initialised *)
 AttachSeen(u, t) == /\ t \in mods /\ Rank(phase[t]) >= 3 /\ UNCHANGED vars
 
 Write(m) == /\ m \in writes /\ m \notin written /\ m \notin polled        \* exactly once, before the first poll
             /\ phase[host[m]] = "started" /\ Rank(phase[m]) >= 3 /\ state = "starting"      \* in the thread of its host
             /\ written' = written \cup {m}
-            /\ UNCHANGED <<cfgvars, phase, polled, cbdone, state, stopped, joined, shut>>
+            /\ UNCHANGED <<cfgvars, phase, polled, cbdone, state, stopped, joined, shut, inflight>>
 FirstPoll(m) == /\ m \in polls /\ phase[host[m]] = "started" /\ Rank(phase[m]) >= 3 /\ (m \in writes => m \in written)
                 /\ polled' = polled \cup {m}
-                /\ UNCHANGED <<cfgvars, phase, written, cbdone, state, stopped, joined, shut>>
+                /\ UNCHANGED <<cfgvars, phase, written, cbdone, state, stopped, joined, shut, inflight>>
 Owners == {host[m] : m \in polls \cup writes}                 \* the modules that run a poll thread
 StartedCb(m) == /\ m \in Owners /\ m \notin cbdone /\ phase[m] = "started"
                 /\ \A n \in writes : host[n] = m => n \in written   \* the first round starts with the configured writes
                 /\ cbdone' = cbdone \cup {m}
-                /\ UNCHANGED <<cfgvars, phase, written, polled, state, stopped, joined, shut>>
+                /\ UNCHANGED <<cfgvars, phase, written, polled, state, stopped, joined, shut, inflight>>
+
+(* a long poll has ended: never after a module was shut down (every poll thread is stopped - and waited for - first) *)
+PollBegin(m) == /\ inflight' = inflight \cup {m}
+                /\ UNCHANGED <<cfgvars, phase, written, polled, cbdone, state, stopped, joined, shut>>
+PollEnd(m) == /\ shut = {} /\ inflight' = inflight \ {m}
+              /\ UNCHANGED <<cfgvars, phase, written, polled, cbdone, state, stopped, joined, shut>>
 
 (* the node reports ready: healthy configuration, everything started, every poll thread through its first round *)
 Ready == /\ state = "starting" /\ Healthy
          /\ \A m \in mods : phase[m] = "started"
          /\ Owners \subseteq cbdone
          /\ state' = "ready"
-         /\ UNCHANGED <<cfgvars, phase, written, polled, cbdone, stopped, joined, shut>>
+         /\ UNCHANGED <<cfgvars, phase, written, polled, cbdone, stopped, joined, shut, inflight>>
 (* an unhealthy configuration is refused: no module was started, nothing written to hardware *)
 Refuse == /\ state = "starting" /\ ~Healthy
           /\ \A m \in mods : Rank(phase[m]) < 4
           /\ written = {} /\ polled = {}
           /\ state' = "refused"
-          /\ UNCHANGED <<cfgvars, phase, written, polled, cbdone, stopped, joined, shut>>
+          /\ UNCHANGED <<cfgvars, phase, written, polled, cbdone, stopped, joined, shut, inflight>>
 
 BeginStop == /\ state = "ready" /\ state' = "stopping"
-             /\ UNCHANGED <<cfgvars, phase, written, polled, cbdone, stopped, joined, shut>>
+             /\ UNCHANGED <<cfgvars, phase, written, polled, cbdone, stopped, joined, shut, inflight>>
 StopPoller(m) == /\ state = "stopping" /\ m \notin stopped /\ shut = {}
                  /\ stopped' = stopped \cup {m}
-                 /\ UNCHANGED <<cfgvars, phase, written, polled, cbdone, state, joined, shut>>
+                 /\ UNCHANGED <<cfgvars, phase, written, polled, cbdone, state, joined, shut, inflight>>
 Join(m) == /\ state = "stopping" /\ stopped = mods /\ m \notin joined /\ shut = {}
            /\ joined' = joined \cup {m}
-           /\ UNCHANGED <<cfgvars, phase, written, polled, cbdone, state, stopped, shut>>
+           /\ UNCHANGED <<cfgvars, phase, written, polled, cbdone, state, stopped, shut, inflight>>
 (* users before the modules they are attached to; every poll thread stopped first *)
 Shutdown(m) == /\ state = "stopping" /\ stopped = mods /\ m \notin shut
                /\ \A u \in mods : (m \in att[u] /\ u # m) => u \in shut
                /\ shut' = shut \cup {m}
                /\ state' = (IF shut \cup {m} = mods THEN "down" ELSE state)
-               /\ UNCHANGED <<cfgvars, phase, written, polled, cbdone, stopped, joined>>
+               /\ inflight = {}                                  \* every poll thread was stopped AND waited for
+               /\ UNCHANGED <<cfgvars, phase, written, polled, cbdone, stopped, joined, inflight>>
 
 Next == \/ \E m \in mods : Create(m) \/ EarlyInit(m) \/ InitModule(m) \/ StartModule(m) \/ Write(m)
                            \/ FirstPoll(m) \/ StartedCb(m) \/ StopPoller(m) \/ Join(m) \/ Shutdown(m)
